@@ -40,7 +40,7 @@ FORBIDDEN = re.compile(
 CODES = {
     "C01": {1, 2, 3, 7, 10},
     "C02": {1, 2, 3, 4, 7, 8, 10},
-    "C03": {5, 7, 8, 9},
+    "C03": {5, 7, 8, 9, 15},
     "C08": {2, 3, 4, 8},
     "C11": {5, 8, 9, 10},
     "C12": {1, 2, 3, 5, 9},
@@ -63,7 +63,7 @@ CODES["C12"] = CODES["C12"] | {30, 31, 32}
 CODE_NAMES = {1: "result", 2: "in-memory header", 3: "in-memory descriptors", 4: "minimum-ID cache",
               5: "backing bytes", 6: "buffer position", 7: "live object content",
               8: "header/table region", 9: "backing length", 10: "handle presence", 11: "query answer", 12: "backend call reply", 13: "backend final contents",
-              14: "storage-call trace", 20: "image does not load in the model", 21: "NewVerifier result", 22: "Verify result",
+              14: "storage-call trace", 15: "alignment arithmetic", 20: "image does not load in the model", 21: "NewVerifier result", 22: "Verify result",
               23: "verification callback reports", 24: "AnySignedBy", 25: "AllSignedBy",
               40: "siftool exit status", 41: "file after the siftool command", 42: "standard output of siftool dump",
               30: "image does not load in the model", 31: "NewSigner/Sign result", 32: "bytes after signing"}
@@ -220,19 +220,22 @@ def run_family(family, args, outdir, log):
     if rc != 0:
         return None, None, "harness failed: " + out[-2000:]
     summary = json.load(open(os.path.join(outdir, "summary.json")))
-    procs = []
-    for f in summary.get("files") or []:
+    # at most one coqc per core at a time (a shard can take around 1 GB)
+    import concurrent.futures
+
+    def one(f):
         cmd = "ulimit -s unlimited; ulimit -v 16000000; timeout 3000 coqc -Q %s Sif %s" % (COQ, f)
-        procs.append((f, subprocess.Popen(cmd, shell=True, cwd=outdir, stdout=subprocess.PIPE,
-                                          stderr=subprocess.STDOUT, text=True)))
+        p = subprocess.run(cmd, shell=True, cwd=outdir, stdout=subprocess.PIPE, stderr=subprocess.STDOUT, text=True)
+        return f, p.returncode, p.stdout
+
     mism, errors = [], []
-    for f, p in procs:
-        out, _ = p.communicate()
-        M = parse_M(out)
-        if p.returncode != 0 or M is None:
-            errors.append("%s: coqc rc=%s: %s" % (f, p.returncode, out[-1500:]))
-        else:
-            mism.extend(M)
+    with concurrent.futures.ThreadPoolExecutor(max_workers=min(16, os.cpu_count() or 4)) as ex:
+        for f, rc2, out in ex.map(one, summary.get("files") or []):
+            M = parse_M(out)
+            if rc2 != 0 or M is None:
+                errors.append("%s: coqc rc=%s: %s" % (f, rc2, out[-1500:]))
+            else:
+                mism.extend(M)
     return summary, mism, ("\n".join(errors) if errors else None)
 
 
